@@ -235,8 +235,23 @@ func (st *State) recordBound(t *Term) {
 	}
 }
 
+func (st *State) setDef(k string, v *Term) {
+	if st.defs == nil {
+		st.defs = map[string]*Term{}
+	}
+	st.defs[k] = v
+}
+
 func (st *State) recordDef(t *Term) {
 	st.recordBound(t)
+	// known truth values of atoms of the path condition
+	if t.Op == "not" {
+		if u := t.Args[0]; u.Op != "bool" {
+			st.setDef(u.String(), False)
+		}
+	} else if t.Op != "=" && t.Op != "forall" && t.Op != "exists" && t.Op != "bool" {
+		st.setDef(t.String(), True)
+	}
 	if t.Op != "=" {
 		return
 	}
@@ -265,8 +280,8 @@ func (st *State) recordDef(t *Term) {
 		}
 		return
 	}
-	if !pick(a, b) {
-		pick(b, a)
+	if !pick(a, b) && !pick(b, a) {
+		st.setDef(t.String(), True)
 	}
 }
 
